@@ -112,7 +112,20 @@ impl Compile for NumberLoop {
         let mut val_start = self.val_start.compile(state)?;
         let mut val_end = self.val_end.compile(state)?;
 
+        // both bounds are evaluated (left to right) before the counter receives its first value: the
+        // upper bound may mention a variable with the counter's name (`from 0 to n, n`)
+        let start_register = state.poll_loop_register();
+
         result.append(&mut val_start);
+        result.push(instruction!(store_fast start_register));
+
+        result.append(&mut val_end);
+
+        let end_loop_register = state.poll_loop_register();
+
+        result.push(instruction!(store_fast end_loop_register));
+
+        result.push(instruction!(load_fast start_register));
 
         if self.name_is_collision {
             // the counter is an existing variable: assign to it where it lives, so that enclosing
@@ -121,12 +134,6 @@ impl Compile for NumberLoop {
         } else {
             result.push(instruction!(store_fast loop_identity));
         }
-
-        result.append(&mut val_end);
-
-        let end_loop_register = state.poll_loop_register();
-
-        result.push(instruction!(store_fast end_loop_register));
 
         // ^^^ done with bounds init
 
@@ -204,10 +211,11 @@ impl Compile for NumberLoop {
         result.append(&mut body_compiled);
 
         if !self.name_is_collision {
-            result.push(instruction!(delete_name_scoped loop_identity end_loop_register));
+            result.push(instruction!(delete_name_scoped loop_identity start_register end_loop_register));
         }
 
         end_loop_register.free(state);
+        start_register.free(state);
         loop_identity.free(state);
 
         Ok(result)
